@@ -158,10 +158,18 @@ Definition is_anc_opt (g : dag) (a b : option revid) : bool :=
    [revision] + parents[1:], filtered), then set_parent_trees([revision] +
    get_parent_ids()[1:] + [old_tip if not null]).  The merges themselves are
    content-free.  [None]: the code would call set_parent_trees with "null:" and
-   fail with ReservedId (unreachable: a tree with a basis has a branch with a tip). *)
+   fail with ReservedId (unreachable: a tree with a basis has a branch with a tip).
+   `elif not is_null(old_tip) and old_tip != last_rev: add_parent_tree(old_tip)`
+   (the tree was already on [rev] but behind its branch: the pivoted-out tip is
+   still recorded; add_parent_tree = set_parent_ids(get_parent_ids() + [old_tip])). *)
 Definition update_tree_parents (g : dag) (tps : list revid) (rev old_tip : option revid)
   : option (list revid) :=
-  if opt_eqb (hd_error tps) rev then Some tps
+  if opt_eqb (hd_error tps) rev
+  then match old_tip with
+       | Some o => if opt_eqb old_tip (hd_error tps) then Some tps
+                   else Some (filter_parents g (tps ++ [o]))
+       | None => Some tps
+       end
   else match rev with
        | None => None
        | Some r => let merges := tl (filter_parents g (r :: tl tps)) in
